@@ -239,10 +239,10 @@ Pow(c, rx, ex, pe, UU, k, l) ==
        ext  |-> RMul(pe, RSumSeq([e \in 1..Len(ex[k]) |-> GAbs2(Inner(u, ex[k][e]))])),
        nse  |-> RMul(NoiseOf(c), Norm2(u)) ]
 Den(p)      == RAdd(RAdd(p.intf, p.ext), p.nse)
-PowTab(c, FF, UU, pe) ==
-  LET rx == RxTab(c, FF)
-      ex == ExtTab(c)
-  IN  [k \in 1..c.K |-> [l \in 1..c.ns[k] |-> Pow(c, rx, ex, pe, UU, k, l)]]
+\* (the received streams and external columns of a case are computed once and shared: Tb)
+Tb(c, FF) == [rx |-> RxTab(c, FF), ex |-> ExtTab(c)]
+PowTabT(c, tb, UU, pe) == [k \in 1..c.K |-> [l \in 1..c.ns[k] |-> Pow(c, tb.rx, tb.ex, pe, UU, k, l)]]
+PowTab(c, FF, UU, pe)  == PowTabT(c, Tb(c, FF), UU, pe)
 \* A stream whose interference-plus-noise power is exactly zero while its signal power is not has an INFINITE
 \* SINR: written <<1, 0>>.  The code may report +inf or a huge positive number (its denominator is then rounding
 \* noise), never a negative number or NaN (NonNegative).  0 / 0 is undefined: such cases are outside the property.
@@ -263,16 +263,12 @@ CovEl(c, rx, ex, k, a, b, skipUser, skipStream) ==
                  ELSE OuterEl(rx[k][j][d], a, b)])]),
             GScaleRat(c.pe, GSumSeq([e \in 1..Len(ex[k]) |-> OuterEl(ex[k][e], a, b)]))),
        IF HasNoise(c) /\ a = b THEN GFromRat(NoiseOf(c)) ELSE GZero)
-QTab(c, FF) ==
-  LET rx == RxTab(c, FF)
-      ex == ExtTab(c)
-  IN  [k \in 1..c.K |-> [a \in 1..c.nr[k] |-> [b \in 1..c.nr[k] |-> CovEl(c, rx, ex, k, a, b, k, 0)]]]
+QTabT(c, tb) == [k \in 1..c.K |-> [a \in 1..c.nr[k] |-> [b \in 1..c.nr[k] |-> CovEl(c, tb.rx, tb.ex, k, a, b, k, 0)]]]
+QTab(c, FF)  == QTabT(c, Tb(c, FF))
 \* covariance seen by stream l of user k: every other stream of every user + external + noise
-BTab(c, FF) ==
-  LET rx == RxTab(c, FF)
-      ex == ExtTab(c)
-  IN  [k \in 1..c.K |-> [l \in 1..c.ns[k] |-> [a \in 1..c.nr[k] |-> [b \in 1..c.nr[k] |->
-          CovEl(c, rx, ex, k, a, b, k, l)]]]]
+BTabT(c, tb) == [k \in 1..c.K |-> [l \in 1..c.ns[k] |-> [a \in 1..c.nr[k] |-> [b \in 1..c.nr[k] |->
+                    CovEl(c, tb.rx, tb.ex, k, a, b, k, l)]]]]
+BTab(c, FF)  == BTabT(c, Tb(c, FF))
 
 (* ----- the IA solver: W is compensated so that  full_W^H * H_kk * full_F = I  (zero forcing of
    the user's own streams).  full_W_H = (W^H H_kk full_F)^-1 W^H; we keep the adjugate form
@@ -286,13 +282,15 @@ UeffTab(c, FF)   == Force([k \in 1..c.K |-> MHerm(UeffH(c, FF, k))])
 SolverInvertible(c, FF) == \A k \in 1..c.K : ~GIsZero(HeqDet(c, FF, k))
 
 NoSol == [ok |-> FALSE, sinr |-> <<>>, det |-> <<>>]
-SolOf(c) ==
+SolOfT(c, tb) ==
   IF ~SolverApplies(c) THEN NoSol
   ELSE LET FF == FullF(c)
        IN IF ~SolverInvertible(c, FF) THEN NoSol
-          ELSE LET pt == PowTab(c, FF, UeffTab(c, FF), RZero)
+          ELSE LET pt == PowTabT(c, tb, UeffTab(c, FF), RZero)
                IN IF ~PowValid(c, pt) THEN NoSol
                   ELSE [ok |-> TRUE, sinr |-> SinrOfPow(c, pt), det |-> [k \in 1..c.K |-> HeqDet(c, FF, k)]]
+
+SolOf(c) == SolOfT(c, Tb(c, FullF(c)))
 
 (* Frame conditions every replayed step owes (notes/CALL_DISCIPLINE.md).  They are laws about CALLS, not about
    values, so TLC cannot evaluate them; the specification names the ones a step requires, emits the names with
@@ -322,16 +320,17 @@ Det2(M)  == IF Len(M) = 1 THEN M[1][1]
                            a[1] * d[2] + a[2] * d[1] - (b[1] * cc[2] + b[2] * cc[1]), D * D)
 OutOf(c, pt) ==
   LET FF == FullF(c)
-      q  == QTab(c, FF)
+      tb == Tb(c, FF)
+      q  == QTabT(c, tb)
       sn == SinrOfPow(c, pt)
   IN [ sinr |-> sn,
        pow |-> pt,
        onePlus |-> [k \in 1..c.K |-> [l \in 1..c.ns[k] |-> IF IsInf(sn[k][l]) THEN Inf ELSE RAdd(ROne, sn[k][l])]],
        Q |-> q,
-       B |-> BTab(c, FF),
+       B |-> BTabT(c, tb),
        qtr |-> [k \in 1..c.K |-> GRe(MTrace(q[k]))],
        qdet |-> [k \in 1..c.K |-> GRe(Det2(q[k]))],
-       sol |-> SolOf(c),
+       sol |-> SolOfT(c, tb),
        req |-> Required(c) ]
 
 (* ------------------------------ (2) the algebra of the code ------------------------------------ *)
@@ -562,8 +561,11 @@ Twin(c) == [c EXCEPT !.pl  = [k \in 1..c.K |-> [j \in 1..(c.K + Len(c.nte)) |-> 
                      !.U   = [k \in 1..c.K |-> MScale(c.sc, c.U[k])]]
 ScaleInvariant == Has =>
   LET t  == Twin(inp)
-      pt == PowTab(t, FullF(t), t.U, t.pe)
+      tb == Tb(t, FullF(t))
+      pt == PowTabT(t, tb, t.U, t.pe)
       f  == RMul(GAbs2(inp.sc), RSq(inp.ga))
+      nI == [k \in 1..inp.K |-> IF HasNoise(inp) THEN MScale(GFromRat(NoiseOf(inp)), MIdent(inp.nr[k]))
+                                                 ELSE MZero(inp.nr[k], inp.nr[k])]
   IN  /\ \A kl \in Streams(inp) :
             LET p == pt[kl[1]][kl[2]]
                 b == out.pow[kl[1]][kl[2]]
@@ -572,13 +574,10 @@ ScaleInvariant == Has =>
       /\ SinrOfPow(t, pt) = [k \in 1..inp.K |-> [l \in 1..inp.ns[k] |->
                                 LET b == out.pow[k][l]
                                 IN  SDiv(b.sig, RAdd(RAdd(b.intf, b.ext), RMul(inp.tn, b.nse)))]]
-\* the interference covariance of the twin is ga^2 times the original one (it does not depend on U)
-\* (the sigma^2 I part of Q carries the extra noise factor tn)
-QScales == Has => LET t  == Twin(inp)
-                      nI == [k \in 1..inp.K |-> IF HasNoise(inp) THEN MScale(GFromRat(NoiseOf(inp)), MIdent(inp.nr[k]))
-                                                                 ELSE MZero(inp.nr[k], inp.nr[k])]
-                  IN  QTab(t, FullF(t)) = [k \in 1..inp.K |->
-                         MScale(GFromRat(RSq(inp.ga)), MAdd(MSub(out.Q[k], nI[k]), MScale(GFromRat(inp.tn), nI[k])))]
+      \* QScales: the interference covariance of the twin is ga^2 times the original one (it does not depend on U;
+      \* its sigma^2 I part carries the extra noise factor tn)
+      /\ QTabT(t, tb) = [k \in 1..inp.K |->
+                           MScale(GFromRat(RSq(inp.ga)), MAdd(MSub(out.Q[k], nI[k]), MScale(GFromRat(inp.tn), nI[k])))]
 
 \* Hermitian; positive semidefinite decided exactly by the principal minors (Nr <= 2)
 QHermitianPSD == Has => \A k \in 1..inp.K :
@@ -605,7 +604,7 @@ QIsSumOfLinks == Has => \A k \in 1..inp.K : out.Q[k] = LinkSum(inp, FullF(inp), 
 DenIsQuadraticForm == Has =>
   LET FF == FullF(inp)
       rx == RxTab(inp, FF)
-      pt == PowTab(inp, FF, inp.U, inp.pe)
+      pt == out.pow
   IN \A kl \in Streams(inp) :
        LET k == kl[1]
            l == kl[2]
